@@ -212,7 +212,9 @@ def check_doc(report, name, text, label):
         elif sid == 'SE':
             open_set = False
         prev_ln = segs[i - 1][0] if i > 0 else None
-        situation[ln] = 'after-unclosed-set' if broken else ('prev-had-errors' if prev_ln in lines_with_errors else 'prev-clean')
+        outside = (not open_set) and sid not in ('ISA', 'GS', 'ST', 'SE', 'GE', 'IEA')
+        situation[ln] = 'after-unclosed-set' if broken else ('outside-set' if outside else
+                                                             ('prev-had-errors' if prev_ln in lines_with_errors else 'prev-clean'))
     shown_count = {}
     for (ln, kind, cde, msg) in rec:
         report.count('errors:' + kind)
